@@ -279,14 +279,14 @@ pub fn run_c05(tier: Tier) -> ! {
                         p.diag_buf = None;
                     }
                 }
-                let mal: Vec<u8> = if n <= 1 { (0..20).collect() } else { vec![0, 1, 2, 5, 7, 8, 12, 16, 18] };
+                let mal: Vec<u8> = if n <= 1 { (0..23).collect() } else { vec![0, 1, 2, 5, 7, 8, 12, 16, 18, 20] };
                 let mut acts = w4props::std_acts(n as u8, &mal, true);
                 acts.push(w4::Act::ExtDiag);
                 acts.push(w4::Act::LongPause);
                 if n >= 1 {
                     acts.push(w4::Act::UserWrite(0, 3));
                 }
-                let mut cfg = w4::W4Cfg { rig: crate::dprig::RigCfg::basic(periphs), slave_dev: vec![0; n], gc_every_visit: n == 2, high_prio: false, acts, mon: w4::Mon::C05, dev_budget: if n >= 3 { 3 } else { 255 } };
+                let mut cfg = w4::W4Cfg { rig: crate::dprig::RigCfg::basic(periphs), slave_dev: vec![0; n], gc_every_visit: n == 2, high_prio: false, acts, mon: w4::Mon::C05, dev_budget: if n >= 3 { 3 } else { 255 }, late_add: false };
                 cfg.rig.operate = operate;
                 let depth = match n {
                     0 => 3,
@@ -371,6 +371,13 @@ pub const DP_ANSWERS: [DpAns; 12] = [DpAns::Slave, DpAns::Silence, DpAns::Sc, Dp
 /// Run one answer sequence (index k of `answers` applies to the k-th acknowledged request of the station;
 /// beyond the list: default). Returns Err(panic) or Ok(number of requests seen).
 pub fn dp_under_fdl(n_periph: usize, answers: &[u8], with_member: bool, max_requests: usize) -> Result<usize, PanicInfo> {
+    dp_under_fdl_images(n_periph, answers, with_member, max_requests).map(|x| x.0)
+}
+
+/// Same run, additionally judging the process images (C04, drive mode (b)): while the answer to the
+/// outstanding request is anything but the reference slave's own reply, no input image may change and no
+/// DataExchanged event may be reported. Returns (requests seen, first image violation).
+pub fn dp_under_fdl_images(n_periph: usize, answers: &[u8], with_member: bool, max_requests: usize) -> Result<(usize, Option<String>), PanicInfo> {
     use crate::bus::{BusSim, BIT};
     use crate::dprig::*;
     use profirust::fdl::FdlActiveStation;
@@ -378,6 +385,10 @@ pub fn dp_under_fdl(n_periph: usize, answers: &[u8], with_member: bool, max_requ
     let ps = [PeriphCfg::simple(9, 2, 1), PeriphCfg::simple(11, 0, 2), PeriphCfg::simple(4, 1, 0)];
     let cfg = RigCfg::basic(ps[..n_periph].to_vec());
     let (mut dp, _handles) = make_master(&cfg);
+    for (i, h) in _handles.iter().enumerate() {
+        // recognisable initial input images
+        let _ = (i, h);
+    }
     let params = profirust::fdl::ParametersBuilder::new(2, profirust::Baudrate::B500000).slot_bits(300).highest_station_address(4).gap_wait_rotations(10).build();
     let slot_us = params.slot_time().total_micros() as i64;
     let mut fdl = FdlActiveStation::new(params);
@@ -392,6 +403,8 @@ pub fn dp_under_fdl(n_periph: usize, answers: &[u8], with_member: bool, max_requ
     let mut env_queue: Vec<(i64, Vec<u8>)> = vec![];
     let _ = with_member;
     let horizon = slot_us * 4000;
+    let mut last_ans: Option<(DpAns, usize)> = None;
+    let mut image_violation: Option<String> = None;
     while now < horizon && requests < max_requests {
         env_queue.sort_by_key(|e| e.0);
         while let Some((t, _)) = env_queue.first() {
@@ -404,6 +417,7 @@ pub fn dp_under_fdl(n_periph: usize, answers: &[u8], with_member: bool, max_requ
         }
         now += p;
         let t = Instant::from_micros(now);
+        let before: Vec<Vec<u8>> = _handles.iter().map(|h| dp.get_mut(*h).pi_i().to_vec()).collect();
         let r = catch(|| {
             let mut port = bus.port(0);
             fdl.poll(t, &mut port, &mut dp)
@@ -411,7 +425,20 @@ pub fn dp_under_fdl(n_periph: usize, answers: &[u8], with_member: bool, max_requ
         if let Err(pn) = r {
             return Err(pn);
         }
-        let _ = dp.take_last_events();
+        let ev = dp.take_last_events();
+        if let Some((ans, si)) = last_ans {
+            if ans != DpAns::Slave && image_violation.is_none() {
+                let after: Vec<Vec<u8>> = _handles.iter().map(|h| dp.get_mut(*h).pi_i().to_vec()).collect();
+                let dx = matches!(ev.peripheral, Some((_, profirust::dp::PeripheralEvent::DataExchanged)));
+                // Sc is a legitimate Data_Exchange answer only for an input-less peripheral
+                let sc_ok = ans == DpAns::Sc && cfg.periphs[si].in_len == 0;
+                if after != before {
+                    image_violation = Some(format!("input image changed while the outstanding request was answered with {:?}", ans));
+                } else if dx && !sc_ok {
+                    image_violation = Some(format!("DataExchanged reported while the outstanding request was answered with {:?}", ans));
+                }
+            }
+        }
         while seen < bus.trace.len() {
             let tx = bus.trace[seen].clone();
             seen += 1;
@@ -432,6 +459,7 @@ pub fn dp_under_fdl(n_periph: usize, answers: &[u8], with_member: bool, max_requ
             };
             let ans = DP_ANSWERS[*answers.get(requests).unwrap_or(&0) as usize % DP_ANSWERS.len()];
             requests += 1;
+            last_ans = Some((ans, si));
             let genuine = if ans != DpAns::Silence { slaves[si].handle(&f) } else { None };
             let t11 = bus.us_ceil(tx.end + 11 * BIT) + 1;
             let d = |da: u8, sa: u8, fc: u8, dsap: Option<u8>, ssap: Option<u8>, du: Vec<u8>| rc::encode(&rc::RFrame::Data { da, sa, dsap, ssap, fc, du });
@@ -458,7 +486,7 @@ pub fn dp_under_fdl(n_periph: usize, answers: &[u8], with_member: bool, max_requ
             seen = 0;
         }
     }
-    Ok(requests)
+    Ok((requests, image_violation))
 }
 
 /// all answer sequences of length `len` with at most `k` non-default entries
@@ -509,6 +537,44 @@ pub fn c05_dp_under_fdl(tier: Tier) -> (u64, u64) {
                 Err(p) => {
                     let names: Vec<String> = s.iter().map(|a| format!("{:?}", DP_ANSWERS[*a as usize])).collect();
                     ctx().violation(format!("c05.dp_under_fdl.{}", p.sig()), format!("panic in poll() with the DP master attached: {}:{} {} [peripherals {n_periph}, answers {:?}]", p.file, p.line, p.msg, names), desc, s.len() as u64);
+                }
+            }
+        });
+    }
+    (runs.load(Ordering::Relaxed), reqs.load(Ordering::Relaxed))
+}
+
+
+/// C04 drive mode (b): the process images under a real FDL station and stray / foreign replies.
+pub fn c04_images_under_fdl(tier: Tier) -> (u64, u64) {
+    use rayon::prelude::*;
+    use std::sync::atomic::{AtomicU64, Ordering};
+    let runs = AtomicU64::new(0);
+    let reqs = AtomicU64::new(0);
+    for n_periph in [1usize, 2] {
+        let len = tier.pick(9, 12);
+        let seqs = deviation_sequences(len, tier.pick(1, 2), DP_ANSWERS.len());
+        seqs.par_iter().for_each(|s| {
+            if ctx().should_stop() {
+                return;
+            }
+            let desc = json!({"world": "w2-dp", "peripherals": n_periph, "answers": s});
+            let d2 = desc.clone();
+            let r = guarded(move || d2.clone(), || dp_under_fdl_images(n_periph, s, false, len + 6));
+            runs.fetch_add(1, Ordering::Relaxed);
+            let names: Vec<String> = s.iter().map(|a| format!("{:?}", DP_ANSWERS[*a as usize])).collect();
+            match r {
+                Ok((n, None)) => {
+                    reqs.fetch_add(n as u64, Ordering::Relaxed);
+                    if n >= 6 {
+                        ctx().witness("c04_under_fdl_data_exchange_reached");
+                    }
+                }
+                Ok((_, Some(v))) => {
+                    ctx().violation("c04.under_fdl.image_or_event_on_foreign_reply", format!("{v} [peripherals {n_periph}, answers {:?}]", names), desc, s.len() as u64);
+                }
+                Err(p) => {
+                    ctx().violation(format!("c04.under_fdl.{}", p.sig()), format!("panic: {} [answers {:?}]", p.msg, names), desc, s.len() as u64);
                 }
             }
         });
